@@ -1,9 +1,10 @@
 #!/bin/sh
-# usage: coqshow.sh <file.v relative to /verif/coq> <line>  — print the goal after line <line>
-cd /verif/coq
+# usage: [COQ_PRIV=C17] coqshow.sh <file.v relative to coq/> <line> [tail-lines]
+# prints the goal after line <line> (the file's dependencies must have been built by coqmake.sh in the same dir)
+if [ -n "${COQ_PRIV:-}" ]; then cd /verif/.work/priv/$COQ_PRIV/coq || exit 2; else cd /verif/coq || exit 2; fi
 f=$1; n=$2
 tmp=/tmp/coqshow_$$.v
-head -n "$n" "$f" > $tmp
+head -n "$n" "/verif/coq/$f" > $tmp
 echo "Show. " >> $tmp
-coqc -R . HV -w none $tmp 2>&1 | tail -${3:-40}
+timeout 600 coqc -R . HV -w none $tmp 2>&1 | tail -${3:-40}
 rm -f $tmp /tmp/coqshow_$$.vo /tmp/coqshow_$$.glob /tmp/.coqshow_$$.aux /tmp/coqshow_$$.vok /tmp/coqshow_$$.vos
